@@ -6,6 +6,7 @@ package main
 import (
 	"fmt"
 	"go/types"
+	"math/big"
 	"net/textproto"
 	"net/url"
 	"sort"
@@ -613,6 +614,35 @@ func (e *Engine) registerDomain() {
 		}
 		return c.ret(out)
 	})
+	// encoding/binary: exact little/big endian decoding of (possibly symbolic) bytes
+	endian := func(little bool, n int) Intrinsic {
+		return func(c *CallCtx) []Outcome {
+			sl, ok := c.args[1].(SliceV)
+			if !ok || sl.len < n {
+				if ok {
+					return c.panicOut("index-out-of-range")
+				}
+				unm("binary.*Endian on %T", c.args[1])
+			}
+			av := c.st.heap.objs[sl.obj].(*ArrayV)
+			v := I(0)
+			for i := 0; i < n; i++ {
+				b := av.e[sl.off+i].(*Term)
+				sh := i
+				if !little {
+					sh = n - 1 - i
+				}
+				v = Add(v, Mul(b, IBig(new(big.Int).Lsh(big.NewInt(1), uint(8*sh)))))
+			}
+			return c.ret(v)
+		}
+	}
+	r("(encoding/binary.littleEndian).Uint64", endian(true, 8))
+	r("(encoding/binary.littleEndian).Uint32", endian(true, 4))
+	r("(encoding/binary.littleEndian).Uint16", endian(true, 2))
+	r("(encoding/binary.bigEndian).Uint64", endian(false, 8))
+	r("(encoding/binary.bigEndian).Uint32", endian(false, 4))
+	r("(encoding/binary.bigEndian).Uint16", endian(false, 2))
 	r("crypto/rand.Int", func(c *CallCtx) []Outcome {
 		max := c.args[1].(Ptr)
 		mv := c.st.heap.objs[max.obj].(OpaqueV).data.(*Term)
